@@ -14,7 +14,7 @@ structure File where
 structure Cfg where
   skip : List String          -- SkipFiles (non-empty ⇒ vendor filter on as well)
   hasRx : Bool                -- NameFilter set
-  rxEmpty : Bool              -- NameFilter matches ""
+  rxEmpty : Bool              -- NameFilter matches "" (without influence since fix D17: the absent side is not matched)
   deriving Repr
 
 structure Change where
@@ -39,7 +39,7 @@ def diffTree (prev cur : List File) : List Change :=
 def sideVendor (o : Option File) : Bool := match o with | some f => f.vendor | none => false
 def sidePrefix (o : Option File) (d : String) : Bool :=
   match o with | some f => d.isPrefixOf f.path | none => d.isEmpty
-def sideRx (cfg : Cfg) (o : Option File) : Bool := match o with | some f => f.rx | none => cfg.rxEmpty
+def sideRx (_cfg : Cfg) (o : Option File) : Bool := match o with | some f => f.rx | none => false
 
 def keep (cfg : Cfg) (c : Change) : Bool :=
   !(!cfg.skip.isEmpty && (sideVendor c.dst || sideVendor c.src)) &&
